@@ -16,8 +16,12 @@
                                                 C14_registry_slice_spec, C14_registry_history, C14_registry_next_*
      (f) deep copies independent ............. C14_tour_slots_frame, C14_tour_copy_equal, C14_registry_slots_frame,
                                                 C14_registry_copy_equal (functional model: holds by construction; the
-                                                Rust-level content — no shared mutable memory — is checked by the harness) *)
-From VRP Require Import Base.Tac Model.TourReg Proofs.TourRegP.
+                                                Rust-level content — no shared mutable memory — is checked by the harness)
+     (e') the registry clause across the hand-over Solution <-> InsertionContext (factories.rs, context.rs):
+                                                C14_handover_offers, C14_handover_offers_iff, C14_handover_roundtrip,
+                                                C14_handover_history, C14_context_reachable, C14_run_ho_slots
+                                                (proofs: Proofs/HandoverP.v) *)
+From VRP Require Import Base.Tac Model.TourReg Proofs.TourRegP Proofs.HandoverP.
 #[local] Open Scope nat_scope.
 
 (* ------------------------------------------------------------------ tours *)
@@ -282,3 +286,87 @@ Theorem C14_nonvacuous_registry :
   exists gs hs c tr, hrun (rctx_new gs) hs = (c, tr) /\ held_after 1 false tr = true /\ ~ In 1 (available (c_reg c)) /\
                      In 0 (available (c_reg c)).
 Proof. exact P_C14_nonvacuous_registry. Qed.
+
+(* ------------------------------------------------------------------ hand-over Solution <-> InsertionContext *)
+
+(* create_insertion_context_from_solution, for ANY well-formed input registry state and any route list with pairwise distinct
+   actors: the context keeps exactly the routes with jobs (in order); no actor of a kept route is offered; the actor of a
+   job-less route is offered iff the registry knows it; an actor without a route keeps whatever state the solution's registry
+   gave it *)
+Theorem C14_handover_offers : forall r rs c kept,
+  WFReg r -> NoDup (map fst rs) -> from_solution_raw r rs = (c, kept) ->
+  WFctx c /\ kept = filter route_has_jobs rs /\ r_all (c_reg c) = r_all r /\
+  (forall a, In a (map fst kept) -> ~ In a (available (c_reg c))) /\
+  (forall a, In a (map fst rs) -> ~ In a (map fst kept) -> (In a (available (c_reg c)) <-> In a (r_all r))) /\
+  (forall a, ~ In a (map fst rs) -> (In a (available (c_reg c)) <-> In a (available r))).
+Proof. exact P_C14_handover_offers. Qed.
+
+(* InsertionContext::new_from_solution (= the factory + restore) never panics and changes nothing further *)
+Theorem C14_new_from_solution_total : forall r rs, new_from_solution r rs = Some (from_solution_raw r rs).
+Proof. exact new_from_solution_raw. Qed.
+
+(* when the solution's registry marks as used only actors of its routes (the state of the route actors themselves is
+   arbitrary: e.g. every tour's vehicle marked used, as the initial-solution readers do): after the hand-over an actor is
+   offered EXACTLY when it is a fleet actor and not the actor of a kept route; in particular the actor of a job-less route
+   IS offered and the actor of a route with jobs is not *)
+Theorem C14_handover_offers_iff : forall r rs c kept,
+  WFReg r -> NoDup (map fst rs) -> (forall a, In a (map fst rs) -> In a (r_all r)) ->
+  (forall a, In a (r_all r) -> ~ In a (map fst rs) -> In a (available r)) ->
+  new_from_solution r rs = Some (c, kept) ->
+  kept = filter route_has_jobs rs /\
+  (forall a, In a (available (c_reg c)) <-> In a (r_all r) /\ ~ In a (map fst kept)) /\
+  (forall a t, In (a, t) rs -> has_jobs t = false -> In a (available (c_reg c))) /\
+  (forall a t, In (a, t) rs -> has_jobs t = true -> ~ In a (available (c_reg c))).
+Proof. exact P_C14_handover_offers_iff. Qed.
+
+(* round trip: a consistent context (HInv: distinct known route actors, offered iff known and without route) turned into a
+   Solution and back keeps the routes with jobs and the offered set grows exactly by the actors of the dropped job-less
+   routes; if every route has jobs, registry and routes come back unchanged *)
+Theorem C14_handover_roundtrip : forall c rs r rs0 c2 rs2,
+  HInv c rs -> into_solution c rs = (r, rs0) -> new_from_solution r rs0 = Some (c2, rs2) ->
+  HInv c2 rs2 /\ rs2 = filter route_has_jobs rs /\ r_all (c_reg c2) = r_all (c_reg c) /\
+  (forall a, In a (available (c_reg c2)) <-> In a (available (c_reg c)) \/ (In a (map fst rs) /\ ~ In a (map fst rs2))) /\
+  (Forall (fun rt => route_has_jobs rt = true) rs -> c_reg c2 = c_reg c /\ rs2 = rs).
+Proof. exact P_C14_handover_roundtrip. Qed.
+
+(* composition with the registry histories: after the hand-over, under ANY further use/free/get_route/next/deep_slice
+   history, acquisitions and releases of every actor alternate starting from "held iff a kept route holds it" (so the actor
+   of a kept route is never handed out before it was released) and an actor is offered iff it is a member and not held *)
+Theorem C14_handover_history : forall r rs c0 kept hs c tr a,
+  WFReg r -> NoDup (map fst rs) -> (forall a, In a (map fst rs) -> In a (r_all r)) ->
+  (forall a, In a (r_all r) -> ~ In a (map fst rs) -> In a (available r)) ->
+  new_from_solution r rs = Some (c0, kept) -> hrun c0 hs = (c, tr) ->
+  WFReg (c_reg c) /\ alternating a (set_mem a (map fst kept)) tr /\
+  (In a (available (c_reg c)) <-> In a (r_all (c_reg c)) /\ held_after a (set_mem a (map fst kept)) tr = false).
+Proof. exact P_C14_handover_history. Qed.
+
+(* every context reachable from InsertionContext::new (locks) / new_empty / new_from_solution by get_route+push, tour
+   operations, keep_routes, restore, next_route and round trips through Solution: route actors pairwise distinct (no vehicle in
+   two routes), available() duplicate-free, offered iff fleet member without a route, and keep_routes / restore never hit
+   the `assert!(free_route)` *)
+Theorem C14_context_reachable : forall closed c rs, creach closed c rs ->
+  WFctx c /\ NoDup (map fst rs) /\ NoDup (available (c_reg c)) /\
+  (forall a, In a (available (c_reg c)) <-> In a (r_all (c_reg c)) /\ ~ In a (map fst rs)) /\
+  (forall keep, cstep closed c rs (CKeep keep) <> None) /\ cstep closed c rs CRestore <> None.
+Proof. exact P_C14_context_reachable. Qed.
+
+(* the multi-slot machine evaluated by the correspondence (run_ho): its final dumps are those of the folded slots, and under
+   disciplined operations every slot — contexts and the solutions converted from them — offers exactly the route-less members *)
+Theorem C14_run_ho_final : forall closed probes ops ss acc,
+  snd (hsrun closed probes ss ops acc) = map (dump_hslot probes) (hsfold closed ss ops).
+Proof. intros closed probes ops. exact (hsrun_final closed probes ops). Qed.
+Theorem C14_run_ho_slots : forall gs closed ls c rs ops s,
+  create_context gs closed ls = Some (c, rs) -> Forall hs_disciplined ops -> In s (hsfold closed [HCtx c rs] ops) ->
+  match s with
+  | HCtx c' rs' => NoDup (map fst rs') /\ forall a, In a (available (c_reg c')) <-> In a (r_all (c_reg c')) /\ ~ In a (map fst rs')
+  | HSol r' rs' => NoDup (map fst rs') /\ forall a, In a (available r') <-> In a (r_all r') /\ ~ In a (map fst rs')
+  end.
+Proof. exact P_C14_run_ho_slots. Qed.
+
+(* non-vacuity: three vehicles, every tour marked used (nothing offered), the middle tour has no jobs: after the hand-over
+   exactly its vehicle is offered and the context holds the two routes with jobs *)
+Theorem C14_nonvacuous_handover :
+  WFReg nv_reg /\ NoDup (map fst nv_routes) /\ (forall a, In a (map fst nv_routes) -> In a (r_all nv_reg)) /\
+  used_only_by_routes nv_reg nv_routes /\ available nv_reg = [] /\
+  exists c kept, new_from_solution nv_reg nv_routes = Some (c, kept) /\ map fst kept = [0; 2] /\ available (c_reg c) = [1].
+Proof. exact P_C14_nonvacuous_handover. Qed.
